@@ -46,6 +46,9 @@ def run(ctx):
             cases.append((raw[:5] + struct.pack('<Q', len(data) - 1) + raw[13:], 'lzma size-too-small', ALONE))
             cases.append((raw[:5] + struct.pack('<Q', len(data) + 1) + raw[13:], 'lzma size-too-big', ALONE))
         cases.append((known + bytes([rng.getrandbits(8)]), 'lzma + trailing byte', ALONE))
+        # the end marker arrives before the declared size is reached, with plenty of input after it (fast decoding loop)
+        if data: cases.append((raw[:5] + struct.pack('<Q', len(data) + rng.choice([1, 7, 1000])) + raw[13:] + rng.choice([bytes(40), bytes(rng.getrandbits(8) for _ in range(64)), raw]), 'lzma size-too-big + eopm + trailing data', ALONE))
+        cases.append((known + bytes(rng.getrandbits(8) for _ in range(48)), 'lzma + 48 trailing bytes', ALONE))
         cases.append((bytes([rng.choice([225, 255, 0x4C, 0xFD, 9 * 5 * 5, 8 + 9 * 4])]) + raw[1:], 'lzma bad props', ALONE))
         cases.append((raw[:5] + struct.pack('<Q', rng.choice([1 << 38, (1 << 38) - 1, 1 << 62])) + raw[13:], 'lzma huge size (picky)', ALONE))
         m, how = xzgen.mutate(rng, known); cases.append((m, 'lzma mutant ' + how, ALONE))
